@@ -523,7 +523,7 @@ a nested loop ran >= 2 iterations in some tick, or some tick carried only lazy d
         "pipeline".into(),
         json!({"cases_generated": generated, "rustc_rejected": rejected_n, "rustc_rejected_samples": rejected_samples, "build_s": build_s}),
     );
-    if generated > 0 && rejected_n * 20 > generated {
-        ctx.inconclusive(format!("{rejected_n} of {generated} loop programs were rejected by rustc (> 5 %): generator bugs"));
+    if rejected_n > 0 {
+        ctx.inconclusive(format!("{rejected_n} of {generated} loop programs were rejected by rustc (template programs are expected to compile)"));
     }
 }
